@@ -7,8 +7,8 @@ from util import hb, hs, outcome
 import isoutil as iu
 
 ID = 'C20'
-RULE = ('CSV tables of 1..50 rows over the non-derived configured output columns (MTI, data elements, PDS sub-elements; not the '
-        'PDS carrier together with PDS columns), cells with commas, quotes, leading/trailing spaces and boundary lengths, plain '
+RULE = ('CSV tables of 1..50 rows over the non-derived configured output columns (MTI, data elements, PDS sub-elements; every fifth table has the '
+        'PDS carrier columns together with PDS columns, each row using one kind), cells with commas, quotes, leading/trailing spaces and boundary lengths, plain '
         'decimal numbers, ISO date-times across the two-digit-year window, empty cells = absent; latin_1/cp500 x blocking; through '
         'mci_csv_to_ipm / mci_ipm_to_csv as functions and through their command entry points on real files (packaged configuration, and the same configuration handed over as --config-file, as cardutil.json in $CARDUTIL_CONFIG, and without the output column list); '
         'non-trivial = distinct table with at least 2 rows')
@@ -67,11 +67,21 @@ def gen(rng, tier):
             cols = [c for c in cols_all if not (c.startswith('DE') and pk[c[2:]].get('field_processor') == 'PDS')]
         else:
             cols = [c for c in cols_all if not c.startswith('PDS')]
+        mixed = i % 5 == 4
+        if mixed:
+            # both the carrier columns and PDS columns are present; every row uses one kind only (a row that carries its
+            # PDS data ready-made in DE48, the next one as sub-elements)
+            cols = list(cols_all)
         if rng.random() < 0.5:
             cols = ['MTI'] + rng.sample([c for c in cols if c != 'MTI'], rng.randrange(1, len(cols) - 1))
+        is_carrier = lambda c: c.startswith('DE') and pk[c[2:]].get('field_processor') == 'PDS'
         rows = []
         for _ in range(rng.choice([1, 2, 5, 20, 50]) if i % 7 else 1):
-            rows.append([cell(rng, c, pk) if (c == 'MTI' or rng.random() < 0.7) else '' for c in cols])
+            row = [cell(rng, c, pk) if (c == 'MTI' or rng.random() < 0.7) else '' for c in cols]
+            if mixed:
+                drop = (lambda c: c.startswith('PDS')) if rng.random() < 0.5 else is_carrier
+                row = ['' if drop(c) else v for c, v in zip(cols, row)]
+            rows.append(row)
         cases.append({'cols': cols, 'rows': rows, 'codec': rng.choice(['latin_1', 'cp500']), 'blocked': rng.random() < 0.5, 'via': ['cli', 'cli-config', 'cli-env', 'cli-nolist'][(i // 3) % 4] if i % 3 == 0 else 'func'})
     return cases
 
@@ -176,9 +186,17 @@ def judge(case, io_, mo):
         return [{'kind': 'oracle', 'sig': 'tool-failed-' + case['via'], 'msg': 'csv -> ipm -> csv failed: %s' % io_['out']}]
     if io_['n'] != len(case['rows']):
         return [{'kind': 'oracle', 'sig': 'row-count', 'msg': '%d rows in, %d rows out' % (len(case['rows']), io_['n'])}]
+    from cardutil.config import config as _cfg
+    pkc = _cfg['bit_config']
+    pds_related = lambda c: c.startswith('PDS') or (c.startswith('DE') and pkc.get(c[2:], {}).get('field_processor') == 'PDS')
+    mixed = any(c.startswith('PDS') for c in case['cols']) and any(pds_related(c) and c.startswith('DE') for c in case['cols'])
     for i, (a, b) in enumerate(zip(case['rows'], io_['rows'])):
-        if a != b:
-            j = next(j for j in range(len(a)) if a[j] != b[j])
+        # with carrier AND sub-element columns in one table, a cell the row left empty may come back filled with what
+        # decoding derives (the carrier of the row's sub-elements, the sub-elements of the row's carrier): every
+        # SUPPLIED cell must come back unchanged
+        same = [x == y or (mixed and x == '' and pds_related(c)) for c, x, y in zip(case['cols'], a, b)]
+        if not all(same):
+            j = same.index(False)
             return [{'kind': 'oracle', 'sig': 'cell-changed', 'msg': 'row %d column %s: %r came back as %r' % (i + 1, case['cols'][j], a[j], b[j])}]
     if mo is not None and not any(m.startswith('UNMODELLED') for m in mo):
         f = bytes.fromhex(io_['ipm'])
